@@ -510,7 +510,21 @@ func c04InstallOrder(w *World, r *Report, a *FsmA, id, slug string) {
 			}
 			isSyncF := func(in ssa.Instruction) bool {
 				c := callOf(in)
-				return c != nil && c.IsInvoke() && c.Method.Name() == "Sync" && c.Value == fv
+				if c == nil {
+					return false
+				}
+				if c.IsInvoke() && c.Method.Name() == "Sync" && c.Value == fv {
+					return true
+				}
+				// a helper given the file that syncs it before closing it / returning success
+				if cal := StaticCallee(c); cal != nil && inModule(cal) && cal.Blocks != nil && len(cal.Params) == len(c.Args) {
+					for i, a := range c.Args {
+						if a == fv && helperSyncsParam(cal, i) {
+							return true
+						}
+					}
+				}
+				return false
 			}
 			isCloseF := func(in ssa.Instruction) bool {
 				c := callOf(in)
@@ -595,7 +609,42 @@ func c04Cleanup(w *World, r *Report) {
 			}
 		}
 	})
-	// name reader
+	// name reader. A checksum computed by a helper of the package (a function whose result is a
+	// hash's Sum) reads like the inline computation.
+	gctx := &ExprCtx{Alias: map[ssa.Value]string{}}
+	eachInstr(gd, func(in ssa.Instruction) {
+		call, ok := in.(*ssa.Call)
+		if !ok {
+			return
+		}
+		cal := StaticCallee(&call.Call)
+		if cal == nil || cal.Blocks == nil || !inModule(cal) {
+			return
+		}
+		sums := true
+		n := 0
+		eachInstr(cal, func(x ssa.Instruction) {
+			if ret, isR := x.(*ssa.Return); isR && !isErrorReturn(ret) && len(ret.Results) > 0 {
+				n++
+				if !strings.Contains(Expr(retVal(ret, 0)), ".Sum(") {
+					sums = false
+				}
+			}
+		})
+		if !sums || n == 0 {
+			return
+		}
+		name := "checksum.Sum(" + Expr(call) + ")"
+		gctx.Alias[call] = name
+		if call.Referrers() != nil {
+			for _, ref := range *call.Referrers() {
+				if ex, isE := ref.(*ssa.Extract); isE && ex.Index == 0 {
+					gctx.Alias[ex] = name
+				}
+			}
+		}
+	})
+	ctx = gctx
 	eachInstr(gd, func(in ssa.Instruction) {
 		ret, ok := in.(*ssa.Return)
 		if !ok {
@@ -652,4 +701,31 @@ func c04ReopenIndex(w *World, r *Report, a *FsmA) {
 		}
 	})
 	ob.NeedFloor(1)
+}
+
+// helperSyncsParam: in fn, every path from the entry to a Close of parameter i or to a success
+// return crosses a Sync of that parameter.
+func helperSyncsParam(fn *ssa.Function, i int) bool {
+	if i >= len(fn.Params) {
+		return false
+	}
+	p := ssa.Value(fn.Params[i])
+	isM := func(name string) func(ssa.Instruction) bool {
+		return func(in ssa.Instruction) bool {
+			c := callOf(in)
+			return c != nil && c.IsInvoke() && c.Method.Name() == name && c.Value == p
+		}
+	}
+	isSync, isClose := isM("Sync"), isM("Close")
+	n := 0
+	eachInstr(fn, func(in ssa.Instruction) {
+		if isSync(in) {
+			n++
+		}
+	})
+	if n == 0 {
+		return false
+	}
+	wk := &Walk{Barrier: isSync, Target: func(x ssa.Instruction) bool { return isClose(x) || isSuccessReturn(x) }}
+	return wk.Find(entry(fn)) == nil
 }
